@@ -220,7 +220,14 @@ func (sms *sqlMetadataStore) AppendObject(ctx context.Context, tx *sql.Tx, bucke
 		if !*updated {
 			return nil, metadatastore.ErrCASFailure
 		}
-		if err = sms.savePartRows(ctx, tx, *updatedEntity.Id, obj.Parts[len(existingParts):], len(existingParts)); err != nil {
+		// Sequence numbers of existing parts are not necessarily 0..n-1 (parts of a
+		// completed multipart upload keep their 1-based part numbers), so continue
+		// after the highest existing one instead of after the part count.
+		nextSequenceNumber := 0
+		if len(existingParts) > 0 {
+			nextSequenceNumber = existingParts[len(existingParts)-1].SequenceNumber + 1
+		}
+		if err = sms.savePartRows(ctx, tx, *updatedEntity.Id, obj.Parts[len(existingParts):], nextSequenceNumber); err != nil {
 			return nil, err
 		}
 		return &metadatastore.PartMutationResult{}, nil
